@@ -62,8 +62,17 @@ impl vstd::std_specs::convert::FromSpecImpl<u8> for SecurityType {
     open spec fn obeys_from_spec() -> bool { false }
     open spec fn from_spec(v: u8) -> Self { arbitrary() }
 }
+/// V2Fly VMess: security codes 1 legacy, 2 auto, 3 aes-128-gcm, 4 chacha20-poly1305, 5 none, 6 zero
+pub open spec fn sec_of_code(v: u8) -> SecurityType {
+    if v == 1 { SecurityType::Legacy } else if v == 2 { SecurityType::Auto } else if v == 3 { SecurityType::Aes128Gcm } else if v == 4 { SecurityType::Chacha20Poly1305 }
+    else if v == 5 { SecurityType::None } else if v == 6 { SecurityType::Zero } else { SecurityType::Unknown }
+}
 impl From<u8> for SecurityType {
-    fn from(value: u8) -> Self {
+    fn from(value: u8) -> (r: Self)
+        ensures
+            //#C03 C16
+            r == sec_of_code(value),
+    {
         match value {
             1 => Self::Legacy,
             2 => Self::Auto,
